@@ -33,7 +33,8 @@ RULE = (
     "frames from the C20 mutation space) and an optional tail (unreadable first octet, announced length < 6, "
     "truncated valid frame); chunkings: all 2^(n-1) boundary sets for streams of n <= 14 octets, every single and "
     "every pair of split points for streams <= 60 octets, random boundary sets, octet-by-octet and one-chunk delivery "
-    "for all, one chunk holding >= 3000 frames; UDP: datagram sequences of the same items plus empty / truncated / "
+    "for all, one chunk holding >= 3000 frames, single chunks of 2000..6000 frames of which 100/75/50/25/10 % (and "
+    "two runs of 1600) are malformed-with-readable-length interleaved with valid ones; UDP: datagram sequences of the same items plus empty / truncated / "
     "random datagrams; non-trivial = stream with a malformed frame followed by a valid one, or a chunk boundary "
     "inside a 6-octet header; distinct by (stream, chunking) hash"
     "; thorough tier only: atheris/libFuzzer campaigns (vk/fuzz.py, fuzz/c22_target.py; 8 processes, half from an empty corpus, half from "
@@ -266,8 +267,17 @@ class Plan:
                     self.expected_raw.append(raw)
             else:
                 seen_malformed = True
+        # "cycle": n repeats the whole item pattern n times (interleaved stress streams stay small as data)
+        cycle = int(case.get("cycle", 1))
+        if cycle > 1:
+            if seen_malformed and self.expected:
+                self.malformed_then_valid = True
+            parts = parts * cycle
+            self.expected = self.expected * cycle
+            self.expected_raw = self.expected_raw * cycle
         self.has_malformed = seen_malformed or case["tail"][0] in ("tail:unreadable", "tail:announced-lt-6")
-        self.n_items = sum((i[2] if len(i) > 2 else 1) for i in case["items"])
+        self.n_items = cycle * sum((i[2] if len(i) > 2 else 1) for i in case["items"])
+        self.n_malformed = cycle * sum((i[2] if len(i) > 2 else 1) for i in case["items"] if not i[0].startswith("valid:"))
         self.tail_kind, tail = case["tail"]
         if self.tail_kind == "tail:announced-lt-6":
             self.parser_defect = True  # parser accepts such headers on the pinned tree (C20 finding)
@@ -324,6 +334,8 @@ def deliver_tcp(ctx, plan: Plan, cuts, label: str) -> bool:
     key = (plan.stream, tuple(cuts)) if len(plan.stream) < 4096 else (len(plan.stream), plan.stream[:64], tuple(cuts))
     ctx.case(key, nontrivial=plan.malformed_then_valid or inside_header, cls=label)
     inp = {"transport": "tcp", "items": plan.case["items"], "tail": plan.case["tail"], "cuts": cuts}
+    if plan.case.get("cycle", 1) != 1:
+        inp["cycle"] = plan.case["cycle"]
     fed = 0
     for chunk in chunks_of(plan.stream, cuts):
         fed += len(chunk)
@@ -512,6 +524,27 @@ def big_cases(ctx):
     yield {"items": [["valid:TunnellingAck", ACK, 1500], M8_STATUS + [1], ["valid:RoutingIndication", _v("061005300008" "2900"), 1700]], "tail": ["tail:incomplete", ACK[:9]]}
 
 
+M10_ACK_STRUCTLEN = ["malformed:tunnelling-ack-structlen", _v("06100421000a" "05010200")]
+V8_ROUTING = ["valid:RoutingIndication", _v("061005300008" "2900")]
+V_ACK = ["valid:TunnellingAck", ACK]
+
+
+def stress_cases(ctx):
+    """Single chunks of 1500..6000 frames in which a fixed fraction (100 %, 75 %, 50 %, 25 %, 10 %,
+    one long run) is malformed-with-readable-length (bad version, unknown / unimplemented service,
+    body the parser rejects), interleaved with valid frames. Deterministic enumeration.
+    (label, case)"""
+    t = 1 if ctx.quick else 2
+    yield "100pct", {"items": [M6_VERSION, M6_UNKNOWN, M8_STATUS, M8_UNIMPL, M10_ACK_STRUCTLEN], "tail": NONE, "cycle": 400 * t}  # 2000 / 4000 frames
+    yield "75pct", {"items": [M6_UNKNOWN, V_ACK, M8_STATUS, M6_VERSION], "tail": NONE, "cycle": 600 * t}  # 2400 frames, 1800 rejected
+    # 50 %: strict alternation of a valid frame with each kind of rejected frame (3000 frames, 1500 rejected each)
+    for m in (M8_STATUS, M6_VERSION, M6_UNKNOWN, M8_UNIMPL, M10_ACK_STRUCTLEN):
+        yield "50pct-" + m[0].split(":")[1], {"items": [m, V_ACK], "tail": ["tail:incomplete", ACK[:9]], "cycle": 1500 * t}
+    yield "25pct", {"items": [V_ACK, V8_ROUTING, M6_UNKNOWN, V8_CSR], "tail": NONE, "cycle": 1500}  # 6000 frames, 1500 rejected
+    yield "10pct", {"items": [V_ACK] * 5 + [M8_UNIMPL] + [V8_STATUS] * 4, "tail": NONE, "cycle": 600}  # 6000 frames, 600 rejected
+    yield "runs", {"items": [V_ACK + [200], M10_ACK_STRUCTLEN + [1600], V8_ROUTING + [200], M6_VERSION + [1600], V_ACK + [50]], "tail": ["tail:unreadable", _v("0000")]}
+
+
 def _shard_short(ctx, case) -> None:
     run_plan(ctx, case, "exhaustive")
 
@@ -532,6 +565,15 @@ def _shard_generated(ctx, what: str, n: int) -> None:
                 deliver_tcp(ctx, plan, (), "one-chunk-3000-frames")
                 half = len(plan.stream) // 2 + 3
                 deliver_tcp(ctx, plan, (half,), "two-chunks-3000-frames")
+        elif what == "stress":
+            for label, case in stress_cases(ctx):
+                plan = Plan(case)
+                if not plan.usable:
+                    raise AssertionError(f"stress stream {label}: parser disagrees with construction")
+                deliver_tcp(ctx, plan, (), f"one-chunk-stress-malformed-{label}")
+                if label in ("50pct-session-status-code", "runs"):
+                    # chunk boundary inside a frame: the big part then arrives behind a buffered prefix
+                    deliver_tcp(ctx, plan, (7,), f"two-chunks-stress-malformed-{label}")
         elif what == "short":
             pass
     finally:
@@ -561,7 +603,7 @@ def run(ctx) -> None:
     jobs = [("short", c, 0) for c in shorts]
     jobs += [("pairs", None, ctx.n(6, 40)), ("pairs", None, ctx.n(6, 40))]
     jobs += [("random", None, ctx.n(200, 1500)), ("random", None, ctx.n(200, 1500))]
-    jobs += [("udp", None, ctx.n(400, 3000)), ("big", None, 0)]
+    jobs += [("udp", None, ctx.n(400, 3000)), ("big", None, 0), ("stress", None, 0)]
     parallel(ctx, _dispatch, jobs, procs=ctx.n(8, 16))
     ctx.notes["budget"] = f"{A_STEPS} + {B_STEPS}*octets_fed_so_far sys.monitoring steps per data_received / datagram_received call"
     if not ctx.quick:  # thorough tier only: coverage-guided campaigns, oracle inside the target
